@@ -152,6 +152,10 @@ class Registry:
                 return [(st, self.setof(eng, node, st))]
             if n in ("any", "all") and len(node.args) == 1 and isinstance(node.args[0], (ast.GeneratorExp, ast.ListComp)):
                 return [(st, self.any_all_gen(eng, n, node.args[0], st))]
+            if n == "defaultdict":
+                return [(st, V(("dict", ("none",), ("none",)), None))]  # typed by the local's declaration (DDict)
+            if n == "cast" and len(node.args) == 2:
+                return eng.ev(node.args[1], st)  # typing.cast is the identity
             if n == "next" and len(node.args) == 1 and isinstance(node.args[0], ast.GeneratorExp):
                 return self.next_gen(eng, node, st)
             out = []
@@ -200,6 +204,8 @@ class Registry:
         raise OutOfSubset(f"starred call at line {node.lineno}")
 
     def is_class(self, name, eng):
+        if any(k.startswith(name + ".") for k in self.contracts):
+            return True
         return name in self.class_bases or name in OBJ_LAYOUT or name in self.ctors or (eng.mod is not None and name in eng.mod.classes)
 
     def super_class(self, eng, attr):
@@ -225,6 +231,9 @@ class Registry:
     def call_named(self, eng, n, args, kwargs, st, node):
         if n in st.vars and st.vars[n].t[0] == "closure":
             return eng.apply_closure(st.vars[n], args, st)
+        if n in st.vars and st.vars[n].t[0] == "boundmethod":
+            recv, attr, rexpr = st.vars[n].x
+            return self.call_method(eng, st, recv, attr, args, kwargs, node, recv_expr=rexpr)
         if n in eng.bound and eng.bound[n].t[0] == "closure":
             return eng.apply_closure(eng.bound[n], args, st)
         if eng.spec and n in self.macros:
@@ -240,11 +249,25 @@ class Registry:
         if c is not None:
             self.check_resolution(eng, n, c)
             return self.apply_contract(eng, c, args, kwargs, st, node)
+        init = self.lookup_method(n, "__init__") if n in OBJ_LAYOUT else None
+        if init is not None:
+            return self.instantiate(eng, n, init, args, kwargs, st, node)
         if eng.spec and n in self.specfuns:
             return [(st, self.specfuns[n](eng, st, *args, **kwargs))]
         raise OutOfSubset(f"call of unknown function {n} at line {getattr(node, 'lineno', '?')}")
 
     code_visible_specfuns = set()
+
+    def instantiate(self, eng, cls, init, args, kwargs, st, node):
+        """ClassName(args): a fresh record initialised by the contract of __init__."""
+        tmp = fresh_name("__new").replace("!", "_")
+        st.vars[tmp] = fresh(("obj", cls), cls.lower())
+        tmp_expr = ast.Name(id=tmp, ctx=ast.Load())
+        out = []
+        for s, _ in self.apply_contract(eng, init, [st.vars[tmp]] + list(args), kwargs, st, node, self_expr=tmp_expr):
+            obj = s.vars.pop(tmp)
+            out.append((s, obj))
+        return out
 
     def check_resolution(self, eng, name, c):
         """The name called in the source must resolve to the module the contract is for."""
